@@ -256,6 +256,28 @@ class C20(flow.Spec):
                     for ch in chunks(pairs, 24):
                         lines.append("v2 %s %s %s" % (fn, ty, " ".join(f"{a} {b}" for a, b in ch)))
                 case(f"dense32 {fn} {ty}", lines)
+        # div_ceil / round_up with arguments of DIFFERENT types: all 64 type pairs; structured sets of both
+        # types (powers of two and neighbours, maxima) + random values of random bit lengths, k often a power of two
+        for fn in ("divceil", "roundup"):
+            for tn in TYPES:
+                lines = []
+                for tk in TYPES:
+                    wn, wk = TYPES[tn][0], TYPES[tk][0]
+                    lines.append(f"sm {fn} {tn} {tk}")
+                    pairs = []
+                    for _ in range(24 if quick else 200):
+                        a = rng.getrandbits(rng.randrange(1, wn + 1))
+                        r = rng.random()
+                        if r < 0.5:
+                            b = 1 << rng.randrange(wk)
+                        elif r < 0.6:
+                            b = ((1 << rng.randrange(wk)) + rng.choice([-1, 1])) & ((1 << wk) - 1)
+                        else:
+                            b = rng.getrandbits(rng.randrange(1, wk + 1))
+                        pairs.append((a, b))
+                    for ch in chunks(pairs, 24):
+                        lines.append("vm %s %s %s %s" % (fn, tn, tk, " ".join(f"{a} {b}" for a, b in ch)))
+                case(f"mixed {fn} {tn}", lines)
         # 64 bit: structured + random values
         for ty in ("u64", "i64"):
             S = structured(64, rng, 200 if quick else 20000)
@@ -372,6 +394,13 @@ class C20(flow.Spec):
             return ("agg", tuple(case[1:])) if (nonempty and empty) else None
         executed = 0
         top = False
+        if case[1].startswith(("sm", "vm")):
+            ex = 0
+            for op, a in zip(case[1:], answers[1:]):
+                m = re.search(r"n=(\d+) skip", a)
+                ex += int(m.group(1)) if m else sum(1 for v in a.split() if v != "-")
+            self.evals += ex
+            return (name, tuple(case[1:3])) if ex else None
         for op, a in zip(case[1:], answers[1:]):
             t = op.split()
             w = TYPES[t[2]][0]
